@@ -484,6 +484,7 @@ class NormProfile(FieldProfile):
 class AlgebraProfile(FieldProfile):
     prop = "C03"
     name = "algebra"
+    tiers = {"quick": 10000, "thorough": 200000}  # the cheapest profile: more runs for the changes that need a rare combination
     predict = ("mesh", "array")
     required_probes = ("same_operand_twice", "shared_mesh", "commute_scalar_vector", "equal_but_distinct_meshes", "evaluate_update_evaluate", "inplace_ufunc", "resampled_same_region")
     rule = (
